@@ -77,6 +77,26 @@ theorem failSeq_state (names : Nat → Name) (s : State) (hinv : Inv names s) (h
       rcases hq i with h' | ⟨r, h'⟩ <;> simp [h', holds] at this
   simp [failSeq, run, step, hr, hmu]
 
+/-! ### the callback log only grows: what was handed over is never rewritten -/
+
+theorem step_fired_suffix (names : Nat → Name) (s s' : State) (e : Event) (h : step names s e = some s') :
+    ∃ l, s'.fired = l ++ s.fired := by
+  cases e <;> simp only [step] at h <;> (repeat' split at h) <;>
+    first
+    | (simp only [Option.some.injEq, reduceCtorEq] at h; subst h; first | exact ⟨[], rfl⟩ | exact ⟨[_], rfl⟩ | exact ⟨_, rfl⟩)
+    | cases h
+theorem run_fired_suffix (names : Nat → Name) (evs : List Event) : ∀ s, ∃ l, (run names s evs).fired = l ++ s.fired := by
+  induction evs with
+  | nil => intro s; exact ⟨[], rfl⟩
+  | cons e es ih =>
+    intro s
+    simp only [run]
+    split
+    · rename_i s' hs
+      obtain ⟨l1, h1⟩ := step_fired_suffix names s s' e hs
+      obtain ⟨l2, h2⟩ := ih s'
+      exact ⟨l2 ++ l1, by rw [h2, h1, List.append_assoc]⟩
+    · exact ih s
 /-! ### `waitForResponses` -/
 
 /-- inside the select `result()` has been called; after the prod the process was aborted -/
